@@ -88,7 +88,6 @@ Definition nearest_point (cvs : list (list T)) (v : list Z -> T) (x : list T) : 
   v (map2 nearest_index cvs x).
 
 (* ---- values: flat C-order list with a shape, NumPy subscripts per axis ---- *)
-Definition prodn (l : list nat) : nat := fold_right Nat.mul 1%nat l.
 Fixpoint nat_index (shape : list nat) (js : list nat) : nat :=
   match shape, js with
   | n :: sh, j :: js' => (j * prodn sh + nat_index sh js')%nat
